@@ -18,7 +18,7 @@ speculative-execution plan, retry policy, clock.  One history op = one call into
 Times are integer milliseconds; the fake time.time() returns exact Fractions of seconds, so no float rounding
 enters the comparison with the model (which counts milliseconds in Z).
 """
-import re, sys, threading
+import collections, re, sys, threading
 from fractions import Fraction
 from functools import partial
 
@@ -78,6 +78,7 @@ class FakeConn(object):
         self._requests = {}
         self.lock = threading.Lock()
         self.orphaned_request_ids = set()
+        self.request_ids = collections.deque()   # ids handed back by _query when send_msg raised ConnectionBusy
         self.defuncts = 0
 
     def send_msg(self, msg, request_id, cb, encoder=None, decoder=None, result_metadata=None):
@@ -429,6 +430,38 @@ class World(object):
                     self.result_log.append((1, self.canon_exc(e)))
                 return True
         raise ValueError('unknown op %r' % (op,))
+
+    # ------------------------------------------------------------------ two calls on two real threads (detsched)
+    def _body(self, op):
+        """the call into the real class that `op` stands for, prepared on the main thread; None if disabled"""
+        k = op[0]
+        if k == 'resp':
+            a, kind, arg, cls = op[1], op[2], op[3], op[4]
+            if a not in self.open_attempts():
+                return None
+            h, rid = self.attempts[a]
+            cb, _, _ = self.session._pools.pools[h].conn._requests.pop(rid)
+            if kind == 'retry':
+                self.next_decision = arg
+            resp = self.make_response(a, kind, arg, cls)
+            return lambda: cb(resp)
+        if k == 'fire':
+            if op[1] not in self.due_timers():
+                return None
+            t = self.timers[op[1]]
+            t.fired = True
+            return t.callback
+        raise ValueError('only resp/fire can run concurrently: %r' % (op,))
+
+    def step_concurrent(self, op_a, op_b, schedule):
+        """op_a and op_b run on two threads, switched at the source lines of cassandra/cluster.py in the given order"""
+        from vf import detsched
+        bodies = [self._body(op_a), self._body(op_b)]
+        if bodies[0] is None or bodies[1] is None:
+            return None
+        with self:
+            r = detsched.Run(bodies, ['cassandra/cluster.py'], schedule).run()
+        return r
 
     # ------------------------------------------------------------------ observation (compared with the model after every step)
     def observe(self):
